@@ -254,7 +254,7 @@ impl Property for C06 {
     fn plan(tier: Tier) -> Plan {
         match tier {
             Tier::Quick => Plan { shards: 16, cases_per_shard: 40_000, max_shrink_iters: 2000 },
-            Tier::Thorough => Plan { shards: 16, cases_per_shard: 320_000, max_shrink_iters: 4000 },
+            Tier::Thorough => Plan { shards: 16, cases_per_shard: 640_000, max_shrink_iters: 4000 },
         }
     }
     fn strategy(_tier: Tier) -> BoxedStrategy<Case> {
@@ -302,8 +302,17 @@ impl Property for C06 {
             "announce-header and invitation signatures are requested the way PeerManager / Invite::create request them (GraphDatabaseService::sign); the QUIC endpoint is not started".into(),
         ]
     }
-    fn fixed_cases(_tier: Tier) -> Vec<Case> {
-        vec![]
+    fn extra_coverage(_tier: Tier, m: &Merged) -> std::collections::BTreeMap<String, serde_json::Value> {
+        let mut out = std::collections::BTreeMap::new();
+        // pairs with byte-identical digest input that were left undecided on purpose
+        let excluded: u64 = m.counters.iter().filter(|(k, _)| k.starts_with("excluded:")).map(|(_, v)| *v).sum();
+        out.insert("excluded_known_shape_pairs".to_string(), serde_json::json!(excluded));
+        out.insert("confirmed_shapes".to_string(), serde_json::json!(KNOWN_SHAPES));
+        out.insert(
+            "forgeries_rejected".to_string(),
+            serde_json::json!(m.counters.get("forgeries_rejected").copied().unwrap_or(0)),
+        );
+        out
     }
 }
 
